@@ -32,8 +32,7 @@ NOT_DECIDED = [
     "the value in a cell (numbers, dates, formula results: value level)",
     "EPUB tables (HTMLParser state machine), RTF tables (regular expressions over control words)",
     "ragged rows and merged cells (grid geometry is value level)",
-    "order of tables in the output",
-]
+    "order of tables in the output", "index arithmetic of the trimming code (which column index is recorded as the last data column)"]
 TRUSTED = ["the tree grammars in sa/schemas", "ElementTree axis semantics", "openpyxl iter_rows(values_only=True) yields every cell of the used range"]
 FLOORS = {"C13-WALK": 60, "C13-KEY": 5, "C13-TRIM": 8, "C13-SPINE": 2, "C13-DIM": 5, "C13-VIEW": 5}
 
